@@ -15,7 +15,7 @@ RULE = ('(a) complete enumeration of all non-empty marked subsets (isotropic: le
         '(leaf, direction) entries, n <= 4) on every state of the bounded BFS (depth <= 2) over six small meshes, '
         'realised by indicators 1 on the subset / 1e-9 elsewhere with theta placed so that exactly the subset is the '
         'bulk; (b) Hypothesis cases: mesh spec x bisection history x 1-3 successive marking steps (iso/aniso, theta '
-        'in (0,1), indicator recipes: random, ties from a 3-value set, zeros, all equal, one dominant entry, '
+        'in (0,1), plain bisections interleaved between the marking steps, indicator recipes: random, ties from a 3-value set, zeros, all equal, one dominant entry, '
         'threshold-exact vectors). Oracle: exact-rational bulk criterion (all admissible shortest prefixes, rounding '
         'band (n+4) ulp) and, for some admissible set, equality of the resulting leaf set with the reference-model '
         'closure (time requests, then space requests on the time halves). Non-trivial = marked set neither empty nor '
@@ -79,9 +79,12 @@ def recipes():
 
 def cases(max_ops):
     mark = st.tuples(st.sampled_from(['iso', 'aniso']), gens.THETAS, recipes()).map(list)
-    return st.builds(lambda spec, ops, marks: {'kind': 'history', 'mesh': spec, 'ops': ops, 'marks': marks},
+    # marking steps interleaved with other refinements: an entry ['op', <operation>] is applied unchecked in between
+    plain = gens.ops(allow=('t', 'x', 'tx')).map(lambda o: ['op', o, None])
+    step = st.one_of(mark, mark, plain)
+    return st.builds(lambda spec, ops, marks, last: {'kind': 'history', 'mesh': spec, 'ops': ops, 'marks': marks + [last]},
                      gens.mesh_specs(), gens.histories(max_ops=max_ops, allow=('t', 'x', 'tx', 'unif')),
-                     st.lists(mark, min_size=1, max_size=3))
+                     st.lists(step, min_size=0, max_size=4), mark)
 
 
 # ------------------------------------------------------------------ oracle
@@ -252,6 +255,16 @@ def body(case, rec, cap=400):
         if len(live.mesh.leaf_elements) > cap:
             rec.exclude('size_cap')
             break
+        if kind == 'op':
+            try:
+                apply_op(live, theta, cap=cap)
+                rec.cls('interleaved_refinement')
+            except Exception as ex:
+                if meshdrive.exc_site(ex) == 'harness':
+                    raise
+                rec.add('history_failed_between_markings')
+                break
+            continue
         if not mark_step(live, kind, float(theta), recipe, rec, case, step):
             break
     if len(rec.samples) < 6 and case['kind'] != 'bfs':
